@@ -740,4 +740,138 @@ example : accepts (.fixed 2) (passedOf (.parens ⟨0, 6⟩ (.cons (.num ⟨1, "1
 
 end Mismatched
 
+/-! ## almost_swapped -/
+section AlmostSwapped
+open AlmostSwapped SideEffects
+
+theorem swap_scan_sound (toks : List String) (g : Diag) : ∀ (l : List Stmt) (st : Option Swap) (pre : List Stmt),
+    (∀ sw, st = some sw → ∃ pre' s0 v0 e0, pre = pre' ++ [s0] ∧ candidate s0 = some (v0, e0) ∧
+        sw = ⟨(glue toks v0.span, glue toks e0.span), (stmtSpan s0).first⟩) →
+    g ∈ scan toks st l →
+    ∃ p s1 s2 q v1 e1 v2 e2, pre ++ l = p ++ s1 :: s2 :: q ∧ candidate s1 = some (v1, e1) ∧ candidate s2 = some (v2, e2) ∧
+      glue toks e2.span = glue toks v1.span ∧ glue toks v2.span = glue toks e1.span ∧
+      g.primary = ⟨(stmtSpan s1).first, e2.span.last⟩
+  | [], st, pre, _, h => by simp [scan] at h
+  | s :: rest, st, pre, hst, h => by
+    have shift : pre ++ s :: rest = (pre ++ [s]) ++ rest := by simp
+    unfold scan at h
+    cases hc : candidate s with
+    | none =>
+      simp only [hc] at h
+      rw [shift]
+      exact swap_scan_sound toks g rest none (pre ++ [s]) (by intro sw hsw; cases hsw) h
+    | some ve =>
+      obtain ⟨v, e⟩ := ve
+      simp only [hc] at h
+      cases st with
+      | none =>
+        simp only at h
+        rw [shift]
+        refine swap_scan_sound toks g rest _ (pre ++ [s]) ?_ h
+        intro sw hsw
+        cases hsw
+        exact ⟨pre, s, v, e, rfl, hc, rfl⟩
+      | some ls =>
+        simp only [List.mem_append] at h
+        rcases h with h | h
+        · obtain ⟨pre', s0, v0, e0, hpre, hc0, hls⟩ := hst ls rfl
+          by_cases hm : (ls.names.1 == glue toks e.span && ls.names.2 == glue toks v.span) = true
+          · simp only [hm, if_true, List.mem_singleton] at h
+            subst h
+            subst hls
+            simp only [Bool.and_eq_true, beq_iff_eq] at hm
+            refine ⟨pre', s0, s, rest, v0, e0, v, e, by simp [hpre], hc0, hc, hm.1.symm, hm.2.symm, rfl⟩
+          · simp [hm] at h
+        · rw [shift]
+          exact swap_scan_sound toks g rest none (pre ++ [s]) (by intro sw hsw; cases hsw) h
+
+/-- soundness as the code is: a report covers two adjacent single assignments `v₁ = e₁` `v₂ = e₂` of one block whose
+    *glued* texts cross over (`glue` = token texts concatenated without separators) -/
+theorem almost_swapped_sound {toks : List String} {P : Block} {g : Diag} (h : g ∈ run toks P) :
+    ∃ b p s1 s2 q v1 e1 v2 e2, Node.block b ∈ nBlock P ∧ (blockStmts b).toList = p ++ s1 :: s2 :: q ∧
+      candidate s1 = some (v1, e1) ∧ candidate s2 = some (v2, e2) ∧
+      glue toks e2.span = glue toks v1.span ∧ glue toks v2.span = glue toks e1.span ∧
+      g.primary = ⟨(stmtSpan s1).first, e2.span.last⟩ := by
+  obtain ⟨n, hn, hg⟩ := List.mem_flatMap.mp h
+  cases n with
+  | block b =>
+    simp only [collect] at hg
+    obtain ⟨p, s1, s2, q, v1, e1, v2, e2, h0, r⟩ :=
+      swap_scan_sound toks g (blockStmts b).toList none [] (by intro sw hsw; cases hsw) hg
+    exact ⟨b, p, s1, s2, q, v1, e1, v2, e2, hn, by simpa using h0, r⟩
+  | stmt s => simp [collect] at hg
+  | last l => simp [collect] at hg
+  | call c => simp [collect] at hg
+
+/-- with token-wise equal texts the glued texts are equal too, so the documented pattern satisfies the code's test;
+    the converse fails (`almost_swapped_glue_witness`) -/
+theorem glue_of_nodeToks {toks : List String} {a b : Span} (h : nodeToks toks a = nodeToks toks b) : glue toks a = glue toks b := by
+  simp [glue, h]
+
+theorem swap_scan_append (toks : List String) : ∀ (bs : List Stmt) (st : Option Swap),
+    ∃ d st', ∀ l, scan toks st (bs ++ l) = d ++ scan toks st' l
+  | [], st => ⟨[], st, fun l => by simp⟩
+  | s :: bs, st => by
+    cases hc : candidate s with
+    | none =>
+      obtain ⟨d, st', h⟩ := swap_scan_append toks bs none
+      exact ⟨d, st', fun l => by simp [scan, hc, h l]⟩
+    | some ve =>
+      obtain ⟨v, e⟩ := ve
+      cases st with
+      | none =>
+        obtain ⟨d, st', h⟩ := swap_scan_append toks bs (some { names := (glue toks v.span, glue toks e.span), start := (stmtSpan s).first })
+        exact ⟨d, st', fun l => by simp [scan, hc, h l]⟩
+      | some ls =>
+        obtain ⟨d, st', h⟩ := swap_scan_append toks bs none
+        exact ⟨(if (ls.names.1 == glue toks e.span && ls.names.2 == glue toks v.span) = true then
+            [{ code := "almost_swapped", primary := ⟨ls.start, e.span.last⟩, msg := AlmostSwapped.msg ls.names }] else []) ++ d, st',
+          fun l => by simp only [List.cons_append, scan, hc, h l, List.append_assoc]⟩
+
+/-- canonical `a = b` `b = a`, in any block anywhere in the program, **provided the statement before the pair (if
+    any) is not itself a single assignment** — see `almost_swapped_miss_witness` for why the proviso is needed -/
+theorem almost_swapped_canon {toks : List String} {P b : Block} {before after : List Stmt} {s1 s2 : Stmt} {v1 v2 : Var} {e1 e2 : Expr}
+    (hw : Within (.block P) (.block b)) (hb : (blockStmts b).toList = before ++ s1 :: s2 :: after)
+    (h1 : candidate s1 = some (v1, e1)) (h2 : candidate s2 = some (v2, e2))
+    (ht1 : glue toks e2.span = glue toks v1.span) (ht2 : glue toks v2.span = glue toks e1.span)
+    (hpre : before = [] ∨ ∃ bs x, before = bs ++ [x] ∧ candidate x = none) :
+    ∃ g ∈ run toks P, g.primary = ⟨(stmtSpan s1).first, e2.span.last⟩ := by
+  have key : ∃ d, scan toks none (before ++ s1 :: s2 :: after) = d ++ scan toks none (s1 :: s2 :: after) := by
+    rcases hpre with rfl | ⟨bs, x, rfl, hx⟩
+    · exact ⟨[], by simp⟩
+    · obtain ⟨d, st', h⟩ := swap_scan_append toks bs none
+      refine ⟨d, ?_⟩
+      have := h (x :: s1 :: s2 :: after)
+      simp only [List.append_assoc, List.singleton_append]
+      rw [this]
+      simp [scan, hx]
+  obtain ⟨d, hd⟩ := key
+  refine ⟨{ code := "almost_swapped", primary := ⟨(stmtSpan s1).first, e2.span.last⟩,
+            msg := AlmostSwapped.msg (glue toks v1.span, glue toks e1.span) }, ?_, rfl⟩
+  refine List.mem_flatMap.mpr ⟨.block b, within_block_mem hw, ?_⟩
+  simp only [collect, hb, hd, List.mem_append]
+  right
+  simp [scan, h1, h2, ht1, ht2]
+
+/-- `x = y` `a = b` `b = a` (tokens 0‥8): nothing is reported — comparing `a = b` with the pending `x = y` empties the slot -/
+def missProgram : Block :=
+  let asg (i : Nat) (a b : String) : Stmt := .assign ⟨i, i + 2⟩ (.cons (.name ⟨i, a⟩) .nil) (.cons (.var (.name ⟨i + 2, b⟩)) .nil)
+  .mk (some ⟨0, 8⟩) (.cons (asg 0 "x" "y") (.cons (asg 3 "a" "b") (.cons (asg 6 "b" "a") .nil))) .none
+
+theorem almost_swapped_miss_witness : run ["x", "=", "y", "a", "=", "b", "b", "=", "a"] missProgram = [] := by
+  decide
+
+/-- `aandb = x` `x = a and b`: reported, because `a and b` glues to `aandb` -/
+def glueProgram : Block :=
+  .mk (some ⟨0, 7⟩) (.cons (.assign ⟨0, 2⟩ (.cons (.name ⟨0, "aandb"⟩) .nil) (.cons (.var (.name ⟨2, "x"⟩)) .nil))
+    (.cons (.assign ⟨3, 7⟩ (.cons (.name ⟨3, "x"⟩) .nil)
+      (.cons (.bin ⟨5, 7⟩ (.var (.name ⟨5, "a"⟩)) ⟨6, "and"⟩ (.var (.name ⟨7, "b"⟩))) .nil)) .nil)) .none
+
+theorem almost_swapped_glue_witness :
+    (run ["aandb", "=", "x", "x", "=", "a", "and", "b"] glueProgram).map (·.primary) = [⟨0, 7⟩] ∧
+    nodeToks ["aandb", "=", "x", "x", "=", "a", "and", "b"] ⟨5, 7⟩ ≠ nodeToks ["aandb", "=", "x", "x", "=", "a", "and", "b"] ⟨0, 0⟩ := by
+  decide
+
+end AlmostSwapped
+
 end Selene.Props.C04B
